@@ -239,12 +239,14 @@ func LockYield() {
 	if s == 0 || lockYieldOff {
 		return
 	}
-	// the site: return addresses of the frames above simsync's Lock (stable within one binary, no state of the run)
+	// the site: the frames above simsync's Lock, each named by its function and the line's distance from the function's
+	// first line - the same for every build in which those functions are unchanged (a return address would change with
+	// any edit anywhere, and a replay file would only replay on the very binary that wrote it)
 	var pcs [3]uintptr
 	k := runtime.Callers(3, pcs[:])
 	h := uint64(s) * 0x9e3779b97f4a7c15
 	for i := 0; i < k; i++ {
-		h = (h ^ uint64(pcs[i])) * 0x100000001b3
+		h = (h ^ siteOf(pcs[i])) * 0x100000001b3
 	}
 	r := rng{s: h}
 	k4 := r.intn(4)
@@ -468,4 +470,26 @@ func goid() int64 {
 		id = id*10 + int64(c-'0')
 	}
 	return id
+}
+
+var siteCache sync.Map // pc -> uint64
+
+// siteOf names a return address by function name and line offset inside the function (FNV-1a), cached per pc.
+func siteOf(pc uintptr) uint64 {
+	if v, ok := siteCache.Load(pc); ok {
+		return v.(uint64)
+	}
+	h := uint64(14695981039346656037)
+	if f := runtime.FuncForPC(pc - 1); f != nil {
+		_, line := f.FileLine(pc - 1)
+		_, entry := f.FileLine(f.Entry())
+		for _, c := range []byte(f.Name()) {
+			h = (h ^ uint64(c)) * 1099511628211
+		}
+		h = (h ^ uint64(line-entry+1000)) * 1099511628211
+	} else {
+		h ^= uint64(pc)
+	}
+	siteCache.Store(pc, h)
+	return h
 }
